@@ -2713,6 +2713,9 @@ int errBoundMode, double absErr_Bound, double relBoundRatio, double pwRelBoundRa
 		{
 			printf("Error: doesn't support 5 dimensions for now.\n");
 			status = SZ_DERR;
+			*newByteData = NULL; //no stream is produced: nothing must be wrapped or returned
+			*outSize = 0;
+			return status;
 		}
 
 		//Call Gzip to do the further compression.
